@@ -51,13 +51,32 @@ def isLitExprX : XExpr → Bool
   | .bin op l r => op.isArith && isLitExprX l && isLitExprX r
   | _ => false
 
+/-- `const_eval.rs: eval_const_int_expr` on an index expression (literals, unary minus, checked
+`+ - * / MOD`); a typed literal contributes only its digits (the sign inside `K#-n` is dropped). -/
+def constIdx : XExpr → Option Int
+  | .lit none v => some v
+  | .lit (some _) v => some (Int.ofNat v.natAbs)
+  | .un .neg e => (constIdx e).map (fun v => -v)
+  | .bin op l r =>
+    match constIdx l, constIdx r with
+    | some a, some b =>
+      match op with
+      | .add => some (a + b)
+      | .sub => some (a - b)
+      | .mul => some (a * b)
+      | .div => if b = 0 then none else some (Int.tdiv a b)
+      | .mod => if b = 0 then none else some (Int.tmod a b)
+      | _ => none
+    | _, _ => none
+  | _ => none
+
 /-- Budget of the checker model's recursion (expression depth × call nesting); ample for generated programs. -/
 def checkFuel : Nat := 100000
 
 mutual
 /-- `check_expression` with calls.  `restricted` = loop-restricted variables (OUT / IN_OUT
 bindings count as modifications). -/
-def inferX (fs : List FuncDef) (ic : List (String × FbDef)) (Γ : Ctx) (restricted : List String) : Nat → XExpr → Option Ty
+def inferX (fs : List FuncDef) (ic : List (String × FbDef)) (ac : List (String × AggDecl)) (Γ : Ctx) (restricted : List String) : Nat → XExpr → Option Ty
   | 0, _ => none
   | fuel + 1, ex =>
   match ex with
@@ -66,15 +85,15 @@ def inferX (fs : List FuncDef) (ic : List (String × FbDef)) (Γ : Ctx) (restric
   | .blit _ => some .bool
   | .var x => Γ.lookup x
   | .un .neg e =>
-    match inferX fs ic Γ restricted fuel e with
+    match inferX fs ic ac Γ restricted fuel e with
     | some (.int k) => some (.int k)
     | _ => none
   | .un .not e =>
-    match inferX fs ic Γ restricted fuel e with
+    match inferX fs ic ac Γ restricted fuel e with
     | some .bool => some .bool
     | _ => none
   | .bin op l r =>
-    match inferX fs ic Γ restricted fuel l, inferX fs ic Γ restricted fuel r with
+    match inferX fs ic ac Γ restricted fuel l, inferX fs ic ac Γ restricted fuel r with
     | some tl, some tr =>
       if op.isArith then
         match tl, tr with
@@ -92,9 +111,24 @@ def inferX (fs : List FuncDef) (ic : List (String × FbDef)) (Γ : Ctx) (restric
     | _, _ => none
   | .fld c f =>
     -- `instance.member`: VAR_INPUT / VAR_OUTPUT / VAR_IN_OUT are readable from outside, VAR is PROTECTED
-    match ic.lookup c with
-    | none => none
-    | some fb => (fb.params.find? (fun q => q.name.toUpper = f.toUpper)).map (·.ty)
+    match ac.lookup c with
+    | some (.str _ fields) => (fields.find? (fun q => q.1.toUpper = f.toUpper)).map (·.2)   -- "no field on struct"
+    | some (.arr _ _ _) => none
+    | none =>
+      match ic.lookup c with
+      | none => none
+      | some fb => (fb.params.find? (fun q => q.name.toUpper = f.toUpper)).map (·.ty)
+  | .idx a i =>
+    -- index of integer type; a constant index is checked against the bounds (E304)
+    match ac.lookup a with
+    | some (.arr lo hi t) =>
+      match inferX fs ic ac Γ restricted fuel i with
+      | some (.int _) =>
+        match constIdx i with
+        | some n => if lo ≤ n ∧ n ≤ hi then some t else none
+        | none => some t
+      | _ => none
+    | _ => none
   | .call f args =>
     match findFunc fs f with
     | none => none
@@ -109,10 +143,10 @@ def inferX (fs : List FuncDef) (ic : List (String × FbDef)) (Γ : Ctx) (restric
       match bound with
       | none => none
       | some b =>
-        if argsOk fs ic Γ restricted fuel formal fd.params b then some fd.ret else none
+        if argsOk fs ic ac Γ restricted fuel formal fd.params b then some fd.ret else none
 
 /-- `check_bound_call_argument_types` (+ the missing IN_OUT test of a formal call). -/
-def argsOk (fs : List FuncDef) (ic : List (String × FbDef)) (Γ : Ctx) (restricted : List String) : Nat → Bool → List Param → Bound → Bool
+def argsOk (fs : List FuncDef) (ic : List (String × FbDef)) (ac : List (String × AggDecl)) (Γ : Ctx) (restricted : List String) : Nat → Bool → List Param → Bound → Bool
   | 0, _, _, _ => false
   | _ + 1, _, [], _ => true
   | _ + 1, _, _ :: _, [] => true
@@ -123,7 +157,7 @@ def argsOk (fs : List FuncDef) (ic : List (String × FbDef)) (Γ : Ctx) (restric
         (if formal then (if p.dir = .out then arrow else !arrow) else true) &&
         (match p.dir with
           | .inp =>
-            match inferX fs ic Γ restricted fuel e with
+            match inferX fs ic ac Γ restricted fuel e with
             | none => false
             | some s => assignable p.ty s || (p.ty.isInt && isLitExprX e)
           | .out =>
@@ -142,11 +176,11 @@ def argsOk (fs : List FuncDef) (ic : List (String × FbDef)) (Γ : Ctx) (restric
                   | some t => assignable p.ty t && assignable t p.ty
                   | none => false)
             | _ => false))
-      && argsOk fs ic Γ restricted fuel formal ps as
+      && argsOk fs ic ac Γ restricted fuel formal ps as
 end
 
-def assignOkX (fs : List FuncDef) (ic : List (String × FbDef)) (Γ : Ctx) (restricted : List String) (target : Ty) (e : XExpr) : Bool :=
-  match inferX fs ic Γ restricted checkFuel e with
+def assignOkX (fs : List FuncDef) (ic : List (String × FbDef)) (ac : List (String × AggDecl)) (Γ : Ctx) (restricted : List String) (target : Ty) (e : XExpr) : Bool :=
+  match inferX fs ic ac Γ restricted checkFuel e with
   | none => false
   | some s => assignable target s || (target.isInt && isLitExprX e)
 
@@ -154,8 +188,8 @@ def simpleVarX : XExpr → List String
   | .var x => [x]
   | _ => []
 
-def forBoundOkX (fs : List FuncDef) (ic : List (String × FbDef)) (Γ : Ctx) (restricted : List String) (ctl : Option IKind) (e : XExpr) : Bool :=
-  match inferX fs ic Γ restricted checkFuel e with
+def forBoundOkX (fs : List FuncDef) (ic : List (String × FbDef)) (ac : List (String × AggDecl)) (Γ : Ctx) (restricted : List String) (ctl : Option IKind) (e : XExpr) : Bool :=
+  match inferX fs ic ac Γ restricted checkFuel e with
   | some (.int k) =>
     match ctl with
     | some c => decide (k = c) || isLitExprX e
@@ -170,6 +204,8 @@ structure Pou where
   readonly : List String := []
   /-- FB instance variables in scope (PROGRAM only) -/
   ic : List (String × FbDef) := []
+  /-- array / struct variables in scope (PROGRAM only) -/
+  ac : List (String × AggDecl) := []
 
 mutual
 def checkXStmt (fs : List FuncDef) (pou : Pou) (ce : Bool) (Γ : Ctx) (restricted : List String) (inLoop : Bool) :
@@ -177,7 +213,18 @@ def checkXStmt (fs : List FuncDef) (pou : Pou) (ce : Bool) (Γ : Ctx) (restricte
   | .assign x e =>
     match Γ.lookup x with
     | none => false
-    | some t => !restricted.contains x && !pou.readonly.contains x && assignOkX fs pou.ic Γ restricted t e
+    | some t => !restricted.contains x && !pou.readonly.contains x && assignOkX fs pou.ic pou.ac Γ restricted t e
+  | .assignIdx a i e =>
+    match inferX fs pou.ic pou.ac Γ restricted checkFuel (.idx a i) with
+    | some t => assignOkX fs pou.ic pou.ac Γ restricted t e
+    | none => false
+  | .assignFld sv f e =>
+    match pou.ac.lookup sv with
+    | some (.str _ _) =>
+      match inferX fs pou.ic pou.ac Γ restricted checkFuel (.fld sv f) with
+      | some t => assignOkX fs pou.ic pou.ac Γ restricted t e
+      | none => false
+    | _ => false
   | .fbcall c args =>
     match pou.ic.lookup c with
     | none => false
@@ -191,13 +238,13 @@ def checkXStmt (fs : List FuncDef) (pou : Pou) (ce : Bool) (Γ : Ctx) (restricte
         else none
       match bound with
       | none => false
-      | some b => argsOk fs pou.ic Γ restricted checkFuel formal fb.params b
-  | .expr e => (inferX fs pou.ic Γ restricted checkFuel e).isSome
+      | some b => argsOk fs pou.ic pou.ac Γ restricted checkFuel formal fb.params b
+  | .expr e => (inferX fs pou.ic pou.ac Γ restricted checkFuel e).isSome
   | .ite c t elifs el =>
-    inferX fs pou.ic Γ restricted checkFuel c = some .bool && checkXBlock fs pou ce Γ restricted inLoop t
+    inferX fs pou.ic pou.ac Γ restricted checkFuel c = some .bool && checkXBlock fs pou ce Γ restricted inLoop t
       && checkXElifs fs pou ce Γ restricted inLoop elifs && checkXBlock fs pou ce Γ restricted inLoop el
   | .case sel brs el =>
-    match inferX fs pou.ic Γ restricted checkFuel sel with
+    match inferX fs pou.ic pou.ac Γ restricted checkFuel sel with
     | some (.int k) =>
       (checkXBranches fs pou ce Γ restricted inLoop k {} brs).isSome
         && (!ce || checkXBlock fs pou ce Γ restricted inLoop el)
@@ -211,18 +258,18 @@ def checkXStmt (fs : List FuncDef) (pou : Pou) (ce : Bool) (Γ : Ctx) (restricte
     match ctl with
     | none => false
     | some c =>
-      forBoundOkX fs pou.ic Γ restricted c s && forBoundOkX fs pou.ic Γ restricted c e
-        && (match step with | none => true | some st => forBoundOkX fs pou.ic Γ restricted c st)
+      forBoundOkX fs pou.ic pou.ac Γ restricted c s && forBoundOkX fs pou.ic pou.ac Γ restricted c e
+        && (match step with | none => true | some st => forBoundOkX fs pou.ic pou.ac Γ restricted c st)
         && checkXBlock fs pou ce Γ (x :: simpleVarX s ++ simpleVarX e ++ restricted) true body
-  | .while c body => inferX fs pou.ic Γ restricted checkFuel c = some .bool && checkXBlock fs pou ce Γ restricted true body
-  | .repeat body c => inferX fs pou.ic Γ restricted checkFuel c = some .bool && checkXBlock fs pou ce Γ restricted true body
+  | .while c body => inferX fs pou.ic pou.ac Γ restricted checkFuel c = some .bool && checkXBlock fs pou ce Γ restricted true body
+  | .repeat body c => inferX fs pou.ic pou.ac Γ restricted checkFuel c = some .bool && checkXBlock fs pou ce Γ restricted true body
   | .exit => inLoop
   | .continue => inLoop
   | .ret none => pou.ret.isNone                   -- bare RETURN in a FUNCTION: "missing return value"
   | .ret (some e) =>
     match pou.ret with
     | none => false                                -- "unexpected return value in procedure"
-    | some (_, t) => assignOkX fs pou.ic Γ restricted t e
+    | some (_, t) => assignOkX fs pou.ic pou.ac Γ restricted t e
 
 def checkXBlock (fs : List FuncDef) (pou : Pou) (ce : Bool) (Γ : Ctx) (restricted : List String) (inLoop : Bool) :
     XBlock → Bool
@@ -233,7 +280,7 @@ def checkXElifs (fs : List FuncDef) (pou : Pou) (ce : Bool) (Γ : Ctx) (restrict
     XElifs → Bool
   | .nil => true
   | .cons c b rest =>
-    inferX fs pou.ic Γ restricted checkFuel c = some .bool && checkXBlock fs pou ce Γ restricted inLoop b
+    inferX fs pou.ic pou.ac Γ restricted checkFuel c = some .bool && checkXBlock fs pou ce Γ restricted inLoop b
       && checkXElifs fs pou ce Γ restricted inLoop rest
 
 def checkXBranches (fs : List FuncDef) (pou : Pou) (ce : Bool) (Γ : Ctx) (restricted : List String) (inLoop : Bool)
@@ -282,6 +329,7 @@ def XExpr.lowerable : XExpr → Bool
   | .bin _ l r => l.lowerable && r.lowerable
   | .call _ args => args.lowerable
   | .fld _ _ => true
+  | .idx _ i => i.lowerable
 def XArgs.lowerable : XArgs → Bool
   | .nil => true
   | .cons _ _ e rest => e.lowerable && rest.lowerable
@@ -292,6 +340,8 @@ def XStmt.lowerable : XStmt → Bool
   | .assign _ e => e.lowerable
   | .expr e => e.lowerable
   | .fbcall _ args => args.lowerable
+  | .assignIdx _ i e => i.lowerable && e.lowerable
+  | .assignFld _ _ e => e.lowerable
   | .ite c t elifs el => c.lowerable && t.lowerable && elifs.lowerable && el.lowerable
   | .case sel brs el => sel.lowerable && brs.lowerable && el.lowerable
   | .for _ s e step body =>
@@ -331,7 +381,7 @@ def funcOk (fs : List FuncDef) (ce : Bool) (fd : FuncDef) : Bool :=
     && fd.params.all (fun p => initOk p.ty p.default)
     && fd.locals.all (fun l => initOk l.ty l.init)
     && checkXBlock fs (Pou.mk (some (fd.name, fd.ret))
-        ((fd.params.filter (fun q => q.dir = .inp)).map (·.name)) []) ce fd.ctx [] false fd.body
+        ((fd.params.filter (fun q => q.dir = .inp)).map (·.name)) [] []) ce fd.ctx [] false fd.body
     && sawReturnBlock fd.name ce fd.body
     && fd.body.lowerable
 
@@ -349,12 +399,13 @@ def XProgram.instCtx (p : XProgram) : List (String × FbDef) :=
   p.insts.filterMap fun (c, t) => (findFb p.fbs t).map fun fb => (c, fb)
 
 def XProgram.acceptedWith (ce : Bool) (p : XProgram) : Bool :=
-  distinctNames (p.decls.map (·.name) ++ p.insts.map (·.1)) && p.decls.all VarDecl.ok
+  distinctNames (p.decls.map (·.name) ++ p.insts.map (·.1) ++ p.aggs.map (·.1)) && p.decls.all VarDecl.ok
+    && p.aggs.all (fun (_, d) => match d with | .arr lo hi _ => decide (lo ≤ hi) | .str _ fs => distinctNames (fs.map (·.1.toUpper)))
     && distinctNames (p.funcs.map (·.name.toUpper) ++ p.fbs.map (·.name.toUpper))
     && p.funcs.all (funcOk p.funcs ce)
     && p.fbs.all (fbOk p.funcs ce)
     && p.insts.all (fun (_, t) => (findFb p.fbs t).isSome)
-    && checkXBlock p.funcs (Pou.mk none [] p.instCtx) ce (p.decls.map fun d => (d.name, d.ty)) [] false p.body
+    && checkXBlock p.funcs (Pou.mk none [] p.instCtx p.aggs) ce (p.decls.map fun d => (d.name, d.ty)) [] false p.body
     && p.body.lowerable
 
 def XProgram.accepted (p : XProgram) : Bool := p.acceptedWith false
